@@ -277,7 +277,7 @@ def handleMono (inp out : List String) : String :=
       -- per piece: the code's position (through the model) against exact point location of the piece
       let pieceSpecOk := ms.all (fun m =>
         let pg : Geom := .polygon (intoPolygon m)
-        qs.all (fun q => monoPos m q == locate pg q && monoPos m q == specPos m q))
+        qs.all (fun q => orderedAt m q && monoPos m q == locate pg q && monoPos m q == specPos m q))
       let prop :=
         if !(ms.all wellFormed) then "FAIL:piece-chains-not-lexicographically-increasing"
         else if !(o.pieces.all (fun p => p.poly.ints.isEmpty)) then "FAIL:piece-has-interior-rings"
@@ -326,6 +326,13 @@ def insertEdge (e : Pt × Pt) : List (Pt × Pt) → List (Pt × Pt)
 
 def sortEdges (es : List (Pt × Pt)) : List (Pt × Pt) := (es.map normEdge).foldr insertEdge []
 
+/-- some triangle corner lies strictly inside an edge of another triangle (a non-conforming
+triangulation: that edge has no identical partner to be stitched with) -/
+def hasTJunction (ts : List Tri) : Bool :=
+  let corners := ts.flatMap (fun t => [t.1, t.2.1, t.2.2])
+  let edges := ts.flatMap (fun t => [(t.1, t.2.1), (t.2.1, t.2.2), (t.2.2, t.1)])
+  edges.any (fun (a, b) => corners.any (fun v => v != a && v != b && lineCoord a b v))
+
 def handleStitch (inp out : List String) : String :=
   let pin : P (String × Geom) := do let w ← tok; let g ← geometry; pure (w, g)
   match P.run pin inp, P.run stitchOut out with
@@ -343,15 +350,19 @@ def handleStitch (inp out : List String) : String :=
       if tl != "" then skip ("triangulation-does-not-tile-" ++ tl) else
       let modelEdges := sortEdges (findBoundaryLines (stitchLines ts))
       match res with
-      | none => reply false "FAIL:stitch-error" (shapeTags g ++ " via=" ++ which) "ok" "err"
+      | none => reply false (if hasTJunction ts then "FAIL:stitch-error-t-junction-in-triangulation" else "FAIL:stitch-error")
+          (shapeTags g ++ " via=" ++ which) "ok" "err"
       | some r =>
         let implEdges := sortEdges ((parts r).areaSegs)
         let same := implEdges == modelEdges
+        let tj := hasTJunction ts
         let prop := if specUnsigned r == specUnsigned g then "PASS"
+          else if tj then "FAIL:stitched-area-differs-t-junction-in-triangulation"
           else if specUnsigned r < specUnsigned g then "FAIL:stitched-area-smaller" else "FAIL:stitched-area-larger"
         let cls := shapeTags g ++ " via=" ++ which ++ " tris=" ++ toString ts.length ++
           " out-polys=" ++ toString ((polysOf r).getD []).length ++
-          (if ts.any (fun t => pieceArea (ringOf t) == 0) then " degenerate-tri" else "")
+          (if ts.any (fun t => pieceArea (ringOf t) == 0) then " degenerate-tri" else "") ++
+          (if tj then " t-junction" else " conforming")
         reply same prop cls ("edges " ++ toString modelEdges.length) ("edges " ++ toString implEdges.length)
   | _, _ => "ERR parse"
 
